@@ -240,51 +240,30 @@ CUT_EDGE_FINDINGS = {
 }
 
 
-def cut_edge_signature(ctx, c, parents):
-    """Which of the recorded defects of the staged fit's data routing this topology runs into, according to the staging
-    MODEL (driver kind stages, lean/RpyModel/Stages.lean): returns a finding id or None. `parents` are the user-level
-    predecessors in operand order."""
-    descs = c["descs"]
-    n = len(descs)
-    offline = [i for i, d in enumerate(descs) if d["kind"] == "ridge"]
-    has_child = {a for a, _ in c["edges"]}
-    exits = [v for v in range(n) if v not in has_child]
-    mo = ctx.model.one({"kind": "stages", "regime": "E", "nodes": list(range(n)), "parents": parents, "exits": exits,
-                        "offline": offline})
+def cut_edge_signature(ctx, model):
+    """Which of the recorded defects of the staged fit's data routing this model runs into, according to the MODEL of that
+    routing (lean/RpyModel/Stages.lean: routeFaults, driver kind stages) evaluated on the model's own graph - concatenation
+    nodes included, predecessors in operand order: returns a finding id or None"""
+    from reservoirpy.utils.graphflow import find_parents_and_children
+    ids = {nd: i for i, nd in enumerate(model.nodes)}
+    par, _ = find_parents_and_children(model.edges)
+    parents = [[ids[p_] for p_ in par.get(nd, [])] for nd in model.nodes]
+    mo = ctx.model.one({"kind": "stages", "regime": "E", "nodes": list(range(len(ids))), "parents": parents,
+                        "exits": sorted(ids[nd] for nd in model.output_nodes),
+                        "offline": sorted(ids[nd] for nd in model.nodes if nd.is_trained_offline)})
     if mo[0] != "ok":
         raise common.FrameworkError("model driver error (stages): " + str(mo[1]))
-    stages = mo[1]["stages"]
-    tr, run = {}, {}
-    for i, st in enumerate(stages):
-        for v in st:
-            if v in offline and v not in tr:
-                tr[v] = i
-            elif v not in run:
-                run[v] = i
-    last = len(stages) - 1
-    first = lambda v: tr[v] if v in tr else run.get(v, last + 1)   # noqa: E731
-    if any(v in exits and tr[v] < last for v in offline):
-        return K23
-    sig = None
-    for v in range(n):
-        ps = parents[v]
-        if len(ps) < 2:
-            continue
-        sv = first(v)
-        ext = [p_ for p_ in ps if run.get(p_, sv) < sv]
-        if any(run[p_] < sv - 1 for p_ in ext):
-            return K21
-        if len(ext) >= 2:
-            sig = sig or K22
-        elif len(ext) == 1 and ps[-1] != ext[0]:
-            sig = sig or K20
-    return sig
+    kinds = {f["kind"] for f in mo[1]["route_faults"]}
+    for kind, fid in (("no_train_data", K23), ("missing", K21), ("overwrite", K22), ("order", K20)):
+        if kind in kinds:
+            return fid
+    return None
 
 
-def report_fit_failure(ctx, c, parents, what, **kw):
-    """a fit that crashed or disagrees with the explicit procedure: a recorded finding when the staging model says the
+def report_fit_failure(ctx, c, model, what, **kw):
+    """a fit that crashed or disagrees with the explicit procedure: a recorded finding when the routing model says the
     topology runs into one of the routing defects, a violation otherwise"""
-    sig = cut_edge_signature(ctx, c, parents) if c["topo"] == "dag" else None
+    sig = cut_edge_signature(ctx, model) if (c["topo"] == "dag" and model is not None) else None
     if sig is not None and sig in common.open_findings("C06"):
         ctx.known(sig, CUT_EDGE_FINDINGS[sig])
         ctx.stat(f"dag fit attributed to {sig}")
@@ -304,8 +283,7 @@ def check_fit(ctx, c):
         ctx.violation(f"building the model raised {type(e).__name__}: {e}", c, obligation=ob)
         return
     Xarg = pack(X, c["container"])
-    names0 = built[1].names if built[0] == "model" else None
-    parents0 = order_parents([tuple(e) for e in c["edges"]], len(descs), names0)
+    model0 = built[1].model if built[0] == "model" else None
     try:
         if built[0] == "esn":
             _, esn, res, ro = built
@@ -396,7 +374,7 @@ def check_fit(ctx, c):
                 b.model.fit(Xarg, Yarg, warmup=c["warmup"], **kw)
             readouts = {i: b.nodes[i] for i in ridge_idx}
     except Exception as e:  # noqa
-        report_fit_failure(ctx, c, parents0, f"fit raised {type(e).__name__}: {e} on a valid dataset", obligation=ob)
+        report_fit_failure(ctx, c, model0, f"fit raised {type(e).__name__}: {e} on a valid dataset", obligation=ob)
         return
     impl_W = {}
     for i, ro in readouts.items():
@@ -430,6 +408,8 @@ def check_fit(ctx, c):
     if mo[0] != "ok":
         raise common.FrameworkError("model rejected a C06 fit case: " + mo[1])
     ctx.count(c, nontrivial=len(ridge_idx) >= 1 and sum(c["lens"]) - c["warmup"] * len(c["lens"]) >= 2, obligation=ob)
+    if c["topo"] == "dag" and model0 is not None:
+        ctx.stat("dag fit completed; routing model predicts " + (cut_edge_signature(ctx, model0) or "no fault"))
     if c.get("grown"):
         ctx.stat("fit of a model grown in place after an earlier fit")
     ctx.stat(f"force_teachers={c.get('force_teachers', True)} refit={bool(c.get('refit'))} failed_between={c.get('failed_between')} stateful={c.get('stateful', True)}")
@@ -447,7 +427,7 @@ def check_fit(ctx, c):
                 if abs(Fraction(float(got[a][b_])) - ex[a][b_]) > Fraction(1, 10 ** 9) * scale:
                     bad_m = (a, b_, float(ex[a][b_]), float(got[a][b_]))
         if bad_py:
-            report_fit_failure(ctx, c, parents0,
+            report_fit_failure(ctx, c, model0,
                                f"fit ({c['topo']}): readout {i} does not get the parameters of the explicit node-by-node procedure "
                                "(run the upstream nodes over the data, fit on their outputs with the same targets and warm-up, feed predictions on)",
                                expected=py.tolist(), observed=got.tolist(), obligation=ob)
